@@ -169,7 +169,7 @@ Definition finish (desc_rev asc : bool) (o : list nat) : list nat :=
    Err "Order2D": for a 2-D array with ONE column the code computes np.argsort of the 2-D array,
    i.e. a 2-D "order" (the callers then fail with TypeError when indexing with it). *)
 Definition M_sifo (p : sort_params) (n : nat) (c : cfs) (checked : bool) (asc : bool) : res (list nat) :=
-  if checked && negb (cfs_len c =? n)%nat then Err "RuntimeError" else
+  if checked && (p_sifo_len_check p && negb (cfs_len c =? n)%nat) then Err "RuntimeError" else
   let depth := match c with
                | CArr1 _ | CIndex _ | CSeries _ => 1
                | CArr2 _ vs | CIH _ vs | CFrame _ vs => Z.of_nat (length vs)
@@ -248,9 +248,9 @@ Definition M_frame_sort_columns (p : sort_params) (f : sframe) (keyres : option 
 
 (* frame.py:4653-4724: from the container for sort to the order.  n = extent of the sorted axis;
    `checked` = a key function was given (only then is the length validated) *)
-Definition M_fsv_order (dir_arr dir_frame : range_dir) (desc_rev : bool)
+Definition M_fsv_order (dir_arr dir_frame : range_dir) (desc_rev len_check : bool)
            (n : nat) (c : cfs) (checked : bool) (asc : bool) : res (list nat) :=
-  if checked && negb (cfs_len c =? n)%nat then Err "RuntimeError" else
+  if checked && (len_check && negb (cfs_len c =? n)%nat) then Err "RuntimeError" else
   match c with
   | CArr1 v => Ok (finish desc_rev asc (np_argsort v))
   | CArr2 _ [v] => Ok (finish desc_rev asc (np_argsort v))
@@ -277,10 +277,13 @@ Definition M_frame_sort_values (p : sort_params) (axis : Z) (f : sframe) (sel : 
                        | None => (fsv_default_cfs axis o sel single, false)
                        end in
   if axis =? 1 then
-    order <- M_fsv_order (p_fsv1_arr p) (p_fsv1_frame p) (p_fsv_desc p) (length (of_index o)) c checked asc ;;
+    order <- M_fsv_order (p_fsv1_arr p) (p_fsv1_frame p) (p_fsv_desc p) (p_fsv1_len_check p) (length (of_index o)) c checked asc ;;
     M_apply_rows f order
   else if axis =? 0 then
-    order <- M_fsv_order (p_fsv0_arr p) (p_fsv0_frame p) (p_fsv_desc p) (length (of_columns o)) c checked asc ;;
+    (* frame.py:4664: without a key function the key row is read with TypeBlocks._extract_array(row_key=...),
+       which leaks StopIteration from a Frame that has NO columns (type_blocks.py: next() over zero blocks) *)
+    if negb checked && (length (of_cols o) =? 0)%nat then Err "StopIteration" else
+    order <- M_fsv_order (p_fsv0_arr p) (p_fsv0_frame p) (p_fsv_desc p) (p_fsv0_len_check p) (length (of_columns o)) c checked asc ;;
     M_apply_cols f order
   else Err "AxisInvalid".
 
@@ -390,6 +393,9 @@ Definition fsv_n (axis : Z) (o : oframe) : nat :=
   if axis =? 1 then length (of_index o) else length (of_columns o).
 Definition fsv_cfs (axis : Z) (o : oframe) (sel : list nat) (single : bool) (keyres : option cfs) : cfs :=
   match keyres with Some c => c | None => fsv_default_cfs axis o sel single end.
+(* the one input class where the code fails before sorting: axis 0, no key function, a Frame without columns *)
+Definition fsv_zero_ok (axis : Z) (o : oframe) (keyres : option cfs) : bool :=
+  negb ((axis =? 0) && match keyres with None => true | Some _ => false end && (length (of_cols o) =? 0)%nat).
 Definition fsv_hier_ok (axis : Z) (f : sframe) (order : list nat) : bool :=
   if axis =? 1 then hier_ok (sf_idepth f) (of_index (sf_obs f)) order
   else hier_ok (sf_cdepth f) (of_columns (sf_obs f)) order.
